@@ -64,5 +64,18 @@ inductive AttrRule where
   | untouched             -- the hook does not assign the attribute
 deriving Repr, DecidableEq
 
+/-- expression language of `Numerics.apply_anc_state_misid(fs, p_misid)`: the returned expression (local names substituted),
+    built from the spectrum argument, scalar expressions in `p_misid`, `reverse_array`, `numpy.ma.getdata` / `.data`, and
+    `+ - *`.  Which Python method an operator reaches (`Spectrum.__add__`, `__radd__`, plain ndarray arithmetic, …) is decided
+    by the KIND of value each side evaluates to — see `Fold.evalM` in Model/Fold.lean. -/
+inductive MExpr where
+  | fs                                  -- the argument `fs`
+  | getdata (e : MExpr)                 -- `numpy.ma.getdata(e)` / `e.data`: the data as a plain ndarray (no mask, no attributes)
+  | rev (e : MExpr)                     -- `reverse_array(e)`
+  | scal (f : Rat → Rat)                -- a scalar expression in `p_misid`
+  | add (a b : MExpr)
+  | sub (a b : MExpr)
+  | mul (a b : MExpr)
+
 end Fold
 end DadiVerif
